@@ -83,6 +83,10 @@ def reference(helper, xs, drop_na=None, numeric_kind=True, **kw):
             return ("either", [MISSING, min(nm) if helper == "min" else max(nm)])  # DESIGN 3.5
         return ("value", min(vals) if helper == "min" else max(vals))
     # numeric reductions
+    if helper in ("sum", "mean") and any(isinstance(v, float) and math.isinf(v) for v in vals) and not na_in:
+        # IEEE arithmetic: an infinity stays, infinities of both signs give NaN
+        signs = {v > 0 for v in vals if isinstance(v, float) and math.isinf(v)}
+        return ("missing",) if len(signs) == 2 else ("value", math.inf if signs == {True} else -math.inf)
     if helper == "sum":
         if na_in:
             return ("missing",)
